@@ -958,7 +958,7 @@ static const yytype_int16 yyrline[] =
     2392,  2402,  2417,  2416,  2429,  2430,  2435,  2468,  2493,  2549,
     2556,  2562,  2568,  2578,  2582,  2590,  2602,  2616,  2623,  2630,
     2655,  2667,  2679,  2691,  2706,  2718,  2733,  2776,  2797,  2832,
-    2867,  2901,  2926,  2943,  2953,  2963,  2973,  2983,  3003,  3023
+    2867,  2901,  2931,  2953,  2963,  2973,  2983,  2993,  3013,  3033
 };
 #endif
 
@@ -5100,7 +5100,12 @@ yyreduce:
         if ((yyvsp[-2].expression).type == EXPRESSION_TYPE_INTEGER &&
             (yyvsp[0].expression).type == EXPRESSION_TYPE_INTEGER)
         {
-          if ((yyvsp[0].expression).value.integer != 0)
+          if ((yyvsp[-2].expression).value.integer == INT64_MIN && (yyvsp[0].expression).value.integer == -1)
+          {
+            (yyval.expression).value.integer = YR_UNDEFINED;  // as in OP_INT_DIV
+            (yyval.expression).type = EXPRESSION_TYPE_INTEGER;
+          }
+          else if ((yyvsp[0].expression).value.integer != 0)
           {
             (yyval.expression).value.integer = OPERATION(/, (yyvsp[-2].expression).value.integer, (yyvsp[0].expression).value.integer);
             (yyval.expression).type = EXPRESSION_TYPE_INTEGER;
@@ -5117,18 +5122,23 @@ yyreduce:
 
         fail_if_error(result);
       }
-#line 5121 "libyara/grammar.c"
+#line 5126 "libyara/grammar.c"
     break;
 
   case 162: /* primary_expression: primary_expression '%' primary_expression  */
-#line 2927 "libyara/grammar.y"
+#line 2932 "libyara/grammar.y"
       {
         check_type((yyvsp[-2].expression), EXPRESSION_TYPE_INTEGER, "%");
         check_type((yyvsp[0].expression), EXPRESSION_TYPE_INTEGER, "%");
 
         fail_if_error(yr_parser_emit(yyscanner, OP_MOD, NULL));
 
-        if ((yyvsp[0].expression).value.integer != 0)
+        if ((yyvsp[-2].expression).value.integer == INT64_MIN && (yyvsp[0].expression).value.integer == -1)
+        {
+          (yyval.expression).value.integer = YR_UNDEFINED;  // as in OP_MOD
+          (yyval.expression).type = EXPRESSION_TYPE_INTEGER;
+        }
+        else if ((yyvsp[0].expression).value.integer != 0)
         {
           (yyval.expression).value.integer = OPERATION(%, (yyvsp[-2].expression).value.integer, (yyvsp[0].expression).value.integer);
           (yyval.expression).type = EXPRESSION_TYPE_INTEGER;
@@ -5138,11 +5148,11 @@ yyreduce:
           fail_if_error(ERROR_DIVISION_BY_ZERO);
         }
       }
-#line 5142 "libyara/grammar.c"
+#line 5152 "libyara/grammar.c"
     break;
 
   case 163: /* primary_expression: primary_expression '^' primary_expression  */
-#line 2944 "libyara/grammar.y"
+#line 2954 "libyara/grammar.y"
       {
         check_type((yyvsp[-2].expression), EXPRESSION_TYPE_INTEGER, "^");
         check_type((yyvsp[0].expression), EXPRESSION_TYPE_INTEGER, "^");
@@ -5152,11 +5162,11 @@ yyreduce:
         (yyval.expression).type = EXPRESSION_TYPE_INTEGER;
         (yyval.expression).value.integer = OPERATION(^, (yyvsp[-2].expression).value.integer, (yyvsp[0].expression).value.integer);
       }
-#line 5156 "libyara/grammar.c"
+#line 5166 "libyara/grammar.c"
     break;
 
   case 164: /* primary_expression: primary_expression '&' primary_expression  */
-#line 2954 "libyara/grammar.y"
+#line 2964 "libyara/grammar.y"
       {
         check_type((yyvsp[-2].expression), EXPRESSION_TYPE_INTEGER, "^");
         check_type((yyvsp[0].expression), EXPRESSION_TYPE_INTEGER, "^");
@@ -5166,11 +5176,11 @@ yyreduce:
         (yyval.expression).type = EXPRESSION_TYPE_INTEGER;
         (yyval.expression).value.integer = OPERATION(&, (yyvsp[-2].expression).value.integer, (yyvsp[0].expression).value.integer);
       }
-#line 5170 "libyara/grammar.c"
+#line 5180 "libyara/grammar.c"
     break;
 
   case 165: /* primary_expression: primary_expression '|' primary_expression  */
-#line 2964 "libyara/grammar.y"
+#line 2974 "libyara/grammar.y"
       {
         check_type((yyvsp[-2].expression), EXPRESSION_TYPE_INTEGER, "|");
         check_type((yyvsp[0].expression), EXPRESSION_TYPE_INTEGER, "|");
@@ -5180,11 +5190,11 @@ yyreduce:
         (yyval.expression).type = EXPRESSION_TYPE_INTEGER;
         (yyval.expression).value.integer = OPERATION(|, (yyvsp[-2].expression).value.integer, (yyvsp[0].expression).value.integer);
       }
-#line 5184 "libyara/grammar.c"
+#line 5194 "libyara/grammar.c"
     break;
 
   case 166: /* primary_expression: '~' primary_expression  */
-#line 2974 "libyara/grammar.y"
+#line 2984 "libyara/grammar.y"
       {
         check_type((yyvsp[0].expression), EXPRESSION_TYPE_INTEGER, "~");
 
@@ -5194,11 +5204,11 @@ yyreduce:
         (yyval.expression).value.integer = ((yyvsp[0].expression).value.integer == YR_UNDEFINED) ?
             YR_UNDEFINED : ~((yyvsp[0].expression).value.integer);
       }
-#line 5198 "libyara/grammar.c"
+#line 5208 "libyara/grammar.c"
     break;
 
   case 167: /* primary_expression: primary_expression "<<" primary_expression  */
-#line 2984 "libyara/grammar.y"
+#line 2994 "libyara/grammar.y"
       {
         int result;
 
@@ -5218,11 +5228,11 @@ yyreduce:
 
         fail_if_error(result);
       }
-#line 5222 "libyara/grammar.c"
+#line 5232 "libyara/grammar.c"
     break;
 
   case 168: /* primary_expression: primary_expression ">>" primary_expression  */
-#line 3004 "libyara/grammar.y"
+#line 3014 "libyara/grammar.y"
       {
         int result;
 
@@ -5242,19 +5252,19 @@ yyreduce:
 
         fail_if_error(result);
       }
-#line 5246 "libyara/grammar.c"
+#line 5256 "libyara/grammar.c"
     break;
 
   case 169: /* primary_expression: regexp  */
-#line 3024 "libyara/grammar.y"
+#line 3034 "libyara/grammar.y"
       {
         (yyval.expression) = (yyvsp[0].expression);
       }
-#line 5254 "libyara/grammar.c"
+#line 5264 "libyara/grammar.c"
     break;
 
 
-#line 5258 "libyara/grammar.c"
+#line 5268 "libyara/grammar.c"
 
       default: break;
     }
@@ -5478,5 +5488,5 @@ yyreturnlab:
   return yyresult;
 }
 
-#line 3029 "libyara/grammar.y"
+#line 3039 "libyara/grammar.y"
 
